@@ -81,7 +81,8 @@ func restartMachine(w *world.World, n *world.Node, round string, seq int) (repla
 	return
 }
 
-func runC12(seed uint64, n, t int, createdAt time.Time, restarts []c12Restart, twin int) (finals []c12Final, round string, notes []string, viol [][2]string) {
+// prior: the same machines complete an earlier round first; restarts and the twin concern the second.
+func runC12(seed uint64, n, t int, createdAt time.Time, restarts []c12Restart, twin int, prior bool) (finals []c12Final, round string, notes []string, viol [][2]string) {
 	w, err := world.NewWorld(world.Options{N: n, T: t, Seed: seed})
 	if err != nil {
 		notes = append(notes, err.Error())
@@ -93,7 +94,11 @@ func runC12(seed uint64, n, t int, createdAt time.Time, restarts []c12Restart, t
 	pending := append([]c12Restart{}, restarts...)
 	var twinOps []types.Operation
 	ownCommit := map[int][]byte{}
+	armed := !prior
 	w.ColdHook = func(nd *world.Node, op *types.Operation) (*types.Operation, error) {
+		if !armed {
+			return nil, nil
+		}
 		if nd.Idx == twin {
 			twinOps = append(twinOps, *op)
 		}
@@ -158,6 +163,18 @@ func runC12(seed uint64, n, t int, createdAt time.Time, restarts []c12Restart, t
 		return res
 	}
 	world.UseOpLog = true
+	if prior {
+		pr, err := w.StartDKG(n-1, t, createdAt.Add(-time.Hour))
+		if err != nil {
+			notes = append(notes, err.Error())
+			return
+		}
+		if _, q := w.Run(world.EagerPolicy, 6000); !q || !(&Ceremony{W: w, N: n, T: t, Round: pr}).AllIn(StIdle) {
+			notes = append(notes, "earlier round did not finish")
+			return
+		}
+		armed = true
+	}
 	ce.Round, err = w.StartDKG(0, t, createdAt)
 	if err != nil {
 		notes = append(notes, err.Error())
@@ -231,9 +248,15 @@ func checkC12(c *Ctx) {
 	for _, nt := range ntCases(c.Pick(3, 4)) {
 		n, t := nt.N, nt.T
 		seed := c.Seed*101 + uint64(n*10+t)
-		ref, _, notes, viol := runC12(seed, n, t, createdAt, nil, 0)
+		ref, _, notes, viol := runC12(seed, n, t, createdAt, nil, 0, false)
 		if len(viol) > 0 || len(ref) != n {
 			c.Violate("C12/reference-run-fails", fmt.Sprint(viol, notes), nil)
+			continue
+		}
+		// the same with an earlier completed round on the same machines (a machine is used for many rounds)
+		refPrior, _, notes, viol := runC12(seed, n, t, createdAt, nil, 0, true)
+		if len(viol) > 0 || len(refPrior) != n {
+			c.Violate("C12/reference-run-fails", fmt.Sprint("after an earlier round: ", viol, notes), nil)
 			continue
 		}
 		var jobs [][]c12Restart
@@ -263,10 +286,16 @@ func checkC12(c *Ctx) {
 		// the worlds share the global UseOpLog switch but nothing else
 		Parallel(len(jobs), 16, func(i int) {
 			rs := jobs[i]
-			got, _, notes, viol := runC12(seed, n, t, createdAt, rs, i%n)
+			prior := i%3 == 2
+			ref := ref
+			if prior {
+				ref = refPrior
+				c.Add("restarted_runs_on_machines_that_completed_an_earlier_round", 1)
+			}
+			got, _, notes, viol := runC12(seed, n, t, createdAt, rs, i%n, prior)
 			c.Eval(1)
-			c.Distinct(fmt.Sprintf("n%d t%d %v", n, t, rs))
-			wit := map[string]interface{}{"n": n, "t": t, "restarts": rs, "notes": notes}
+			c.Distinct(fmt.Sprintf("n%d t%d %v prior=%v", n, t, rs, prior))
+			wit := map[string]interface{}{"n": n, "t": t, "restarts": rs, "notes": notes, "machines_completed_an_earlier_round": prior}
 			for _, v := range viol {
 				c.Violate(v[0], v[1], wit)
 			}
